@@ -30,5 +30,6 @@ package cidlink
 
 //@ func LinkSystemUsingMulticodecRegistry$3(lp) (h, err)
 //@   requires lp != nil
+//@   assigns[C20] nothing
 //@   ensures[C05,C20] err == nil ==> dyntype(lp, "LinkPrototype") && h != nil && fresh(h) && h.fed == 0
 //@   ensures[C05] !dyntype(lp, "LinkPrototype") ==> err != nil && h == nil
